@@ -75,6 +75,7 @@ int main(int argc, char** argv) {
     };
     h.op = [](const std::vector<std::string>& t, const std::string&) -> std::string {
         if (t[0] == "init" && t.size() == 2) {
+            names.clear();
             table = std::make_unique<KademliaTable>(intern(t[1]), Config{});
             return "ok";
         }
